@@ -37,10 +37,12 @@ RULE = (
     'dense at small values and rarely up to 65525, TxWindow 1..63, FCS on/off, FCS option supported or not by a '
     'side that does not ask for FCS, max_retransmission {0,1,3,255}, retransmission timeout {2 s, 0.4 s, 30 ms}) x '
     'ACL fragment size {27, 251, 1021} x programs of writes in both directions (sizes 0..receiver MTU: '
-    'unsegmented, k x MPS +-1, >64 segments in one SDU, >64 SDUs, one SDU near the MTU), pauses and an optional '
-    'echo written from inside the server sink x order-preserving HCI delays per device (0/1/7/50 ms, and a '
-    '"slow" class whose round trip exceeds the retransmission timeout); plus an exhaustively enumerated set-up '
-    'grid mode x mode x {no FCS, FCS, no FCS + option unsupported}^2 x carrier x 3 delay profiles. '
+    'unsegmented, k x MPS +-1, >64 segments in one SDU, >64 SDUs, one SDU near the MTU), pauses, an optional '
+    'echo written from inside the server sink, client writes issued the moment create_l2cap_channel() returns x '
+    'order-preserving HCI delays per device (0/1/7/50 ms, and a "slow" class whose round trip exceeds the '
+    'retransmission timeout: 20-50 ms per HCI packet with a 30 ms timeout, or 0.7-1.2 s with the default 2 s); plus '
+    'an exhaustively enumerated set-up grid mode x mode x {no FCS, FCS, no FCS + option unsupported}^2 x carrier x '
+    '3 delay profiles (7 in the thorough tier) and mode x carrier with no server on the PSM. '
     'non-trivial = ERTM with an SDU of >=2 segments, or TxWindow smaller than the segments of an SDU, or '
     'TxSeq wrap-around, or FCS on, or mismatching modes; distinct by (carrier, spec pair, delays, program).'
 )
@@ -59,6 +61,8 @@ ASSUMPTIONS = [
     'a client whose create_l2cap_channel() raised counts as closed (it never got a channel object)',
     '"hang" = virtual loop stalled / horizon exceeded / more than 60 signalling frames from one side during one '
     'channel set-up (livelock in zero virtual time)',
+    'MPS values above 65525 are clamped to 65525 (counted as exclusions): the largest I-frame has to fit one HCI '
+    'ACL packet of the virtual controller; above 65529 Bumble cannot build the frame at all (no cap on the segment size)',
     'a side that asks for FCS always supports the FCS option; monitor time-outs stay at 12 s (above every '
     'generated round trip) so that max_retransmission can never legitimately close the channel',
 ]
@@ -71,6 +75,7 @@ MODES = {
 }
 FCS_OPTION = l2cap.L2CAP_Information_Request.ExtendedFeatures.FCS_OPTION
 BASIC_MAX_SDU = 65529
+MAX_MPS = 65525
 SIGNALLING_LIMIT = 60
 CLIENT, SERVER = 'c', 's'
 OTHER = {CLIENT: SERVER, SERVER: CLIENT}
@@ -352,8 +357,10 @@ def exec_case(case) -> Collector:
 
     async def open_channel():
         w = st_['w']
-        server = w[1].device.create_l2cap_server(spec=mkspec(spec[SERVER]), handler=on_server_channel)
-        st_['psm'] = server.psm
+        if case.get('no_server'):
+            st_['psm'] = 0x1001  # nobody listens on this PSM: the request must be refused
+        else:
+            st_['psm'] = w[1].device.create_l2cap_server(spec=mkspec(spec[SERVER]), handler=on_server_channel).psm
         abort = loop.create_future()
 
         def watch(direction, packet, which):
@@ -367,7 +374,7 @@ def exec_case(case) -> Collector:
             w[i].tap.listeners.append(lambda d, p, name=name: watch(d, p, name))
 
         async def create():
-            return await st_['conn'].create_l2cap_channel(spec=mkspec(spec[CLIENT], psm=server.psm))
+            return await st_['conn'].create_l2cap_channel(spec=mkspec(spec[CLIENT], psm=st_['psm']))
 
         task = loop.create_task(create())
         await asyncio.wait({task, abort}, return_when=asyncio.FIRST_COMPLETED)
@@ -438,6 +445,9 @@ def exec_case(case) -> Collector:
         client = st_.get('client')
         servers = st_['server_channels']
         s_state = servers[0].state.name if servers else 'NONE'
+        if client is not None and case.get('no_server'):
+            col.fail('setup/open_without_server', 'create_l2cap_channel() returned although nobody listens on the PSM')
+            return col
         if client is not None:
             c_state = client.state.name
             if c_state != 'OPEN':
@@ -466,7 +476,7 @@ def exec_case(case) -> Collector:
                     col.fail(f'setup/asymmetric/client_raised_but_open/{pair}', 'create raised but the client keeps an OPEN channel')
                     return col
             col.labels.add('setup:closed')
-            if pair[0] == pair[1]:
+            if pair[0] == pair[1] and not case.get('no_server'):
                 # allowed by the statement ("or both ends closed"); counted so that it cannot go unnoticed
                 col.labels.add('setup:closed_although_same_mode')
             return col
@@ -667,6 +677,8 @@ def classify(case):
     if pair[0] != pair[1]:
         labels.add('mode_mismatch')
         nontrivial = True
+    if case.get('no_server'):
+        labels.add('no_server_on_psm')
     if any(case.get('dc') or []) or any(case.get('ds') or []):
         labels.add('delayed')
     fcs = any(spec[x]['fcs'] for x in spec)
@@ -706,6 +718,13 @@ def classify(case):
 
 
 def run_case(ctx, case, record=True) -> None:
+    for side in (CLIENT, SERVER):
+        if int(case[side]['mps']) > MAX_MPS:
+            # the largest I-frame (START: control + SDU length + MPS octets + FCS) must fit one HCI ACL packet
+            # of the virtual controller, which does not fragment towards the host (C05); above 65529 Bumble
+            # itself cannot build the frame (struct.error in L2CAP_PDU.to_bytes, no cap on the segment size)
+            ctx.exclude('mps_above_65525_clamped')
+            case = dict(case, **{side: dict(case[side], mps=MAX_MPS)})
     col = exec_case(case)
     if col.fails:
         other = dict(case, carrier='le' if case['carrier'] == 'classic' else 'classic')
@@ -731,8 +750,8 @@ def spec_strategy(mode=None):
     mtu = st.one_of(st.sampled_from([48, 49, 64, 672, 1024, 2048, 65535]), st.integers(48, 4096), st.integers(48, 65535))
     mps = st.one_of(
         st.sampled_from([23, 24, 25, 31, 48, 64, 255, 256, 1009, 1010]),
-        st.integers(23, 80), st.integers(23, 1010), st.integers(23, 1010),
-        st.sampled_from([1011, 2048, 65525]),
+        st.integers(23, 80), st.integers(23, 80), st.integers(23, 1010), st.integers(23, 1010), st.integers(23, 1010),
+        st.sampled_from([1011, 2048, 4096, 65525, 65525, 65526, 65530, 65535]),
     )
     win = st.one_of(st.sampled_from([1, 2, 3, 8, 32, 62, 63]), st.integers(1, 63))
 
@@ -841,10 +860,13 @@ def case_strategy(draw):
     return case
 
 
-def grid_cases():
-    """Set-up grid, enumerated: mode x mode x {no FCS, FCS, no FCS + option unsupported}^2 x carrier x delays."""
+def grid_cases(thorough=False):
+    """Set-up grid, enumerated: mode x mode x {no FCS, FCS, no FCS + option unsupported}^2 x carrier x delays
+    (+ mode x carrier with no server on the PSM)."""
     fcs_states = (('-', False, True), ('F', True, True), ('u', False, False))
-    profiles = ([[], []], [[0, 7], []], [[], [3, 0, 50]])
+    profiles = [[[], []], [[0, 7], []], [[], [3, 0, 50]]]
+    if thorough:
+        profiles += [[[50], [0, 1]], [[1, 0], [7]], [[0, 0, 50], [50, 0]], [[7], [7]]]
     out = []
     for carrier in ('classic', 'le'):
         for mc in (E, B):
@@ -857,6 +879,9 @@ def grid_cases():
                             ops = [[CLIENT, 150], [SERVER, 130], [CLIENT, 7]] if mc == ms else []
                             out.append({'kind': 'grid', 'carrier': carrier, 'acl': 27, CLIENT: c, SERVER: s,
                                         'dc': list(dc), 'ds': list(ds), 'echo': 0, 'ops': ops})
+            c = {'mode': mc, 'mtu': 672, 'mps': 40, 'win': 3, 'fcs': False, 'fcs_sup': True, 'maxr': 1, 'rto': 2.0}
+            out.append({'kind': 'grid', 'carrier': carrier, 'acl': 27, CLIENT: c, SERVER: dict(c), 'no_server': True,
+                        'dc': [], 'ds': [1], 'echo': 0, 'ops': []})
     return out
 
 
@@ -885,7 +910,7 @@ def selftest() -> None:
 def run(ctx) -> None:
     vloop.selftest()
     selftest()
-    grid = grid_cases()
+    grid = grid_cases(thorough=not ctx.quick)
     for i, case in enumerate(grid):
         if i % ctx.nshards != ctx.shard:
             continue
